@@ -205,7 +205,7 @@ def run(sh):
                  if i % sh.nshards == sh.shard]
     for p in perms:
         guarded(sh, run_one, sh, make_case(rng, len(p), order=list(p), n_jobs=len(p)), 'schedule')
-    K = 4 if sh.tier == 'quick' else 60
+    K = 4 if sh.tier == 'quick' else 200
     for it in range(K):
         n = int(rng.integers(2, 9 if sh.tier == 'quick' else 13))
         guarded(sh, run_one, sh, make_case(rng, n, api='func' if rng.random() < 0.75 else 'obj'))
